@@ -31,6 +31,10 @@ type C06W struct {
 	Callers []C06Caller `json:"callers"`
 	Exits   []string    `json:"exits,omitempty"`  // plugins that stop themselves at some point during the traffic
 	Rejoin  []string    `json:"rejoin,omitempty"` // of those, the ones that start again (same stub, fresh connection) afterwards
+	// TreqMs > 0: finite request timeout, and every event handler takes SlowMs of simulated time (less
+	// than the timeout each, more than it taken together): nobody may be skipped or dropped for that
+	TreqMs int `json:"treq_ms,omitempty"`
+	SlowMs int `json:"slow_ms,omitempty"`
 }
 
 const hugeTimeout = 1000 * time.Hour
@@ -89,7 +93,14 @@ func c06Gen(rng *rand.Rand, conf string, idx int) any {
 		}
 		w.Callers = append(w.Callers, cl)
 	}
-	if rng.Intn(3) == 0 {
+	if rng.Intn(5) == 0 {
+		// (registration during slow traffic may legitimately time out: everybody registers first)
+		w.TreqMs = pick(rng, []int{400, 500})
+		w.SlowMs = w.TreqMs * 6 / 10
+		for k := range w.Plugins {
+			w.Plugins[k].Late = false
+		}
+	} else if rng.Intn(3) == 0 {
 		for _, p := range w.Plugins {
 			if !p.Late && rng.Intn(3) == 0 {
 				w.Exits = append(w.Exits, p.Name)
@@ -115,17 +126,29 @@ func c06Run(t *testing.T, wl any, sc SchedCfg) *Result {
 	w := wl.(*C06W)
 	return Bubble(t, sc, func(e *Env) {
 		res := e.Res
-		h := NewH1(e, hugeTimeout, hugeTimeout)
+		treq := hugeTimeout
+		if w.TreqMs > 0 {
+			treq = time.Duration(w.TreqMs) * time.Millisecond
+			res.Probe("C06.slow-handlers-under-a-finite-request-timeout")
+		}
+		h := NewH1(e, treq, hugeTimeout)
 		h.Script = func(plugin, rpc, token string) *Reply {
+			slow := 0
+			if rpc != "Synchronize" {
+				slow = w.SlowMs
+			}
 			switch rpc {
 			case "CreateContainer":
 				a := &api.ContainerAdjustment{}
 				a.AddAnnotation("tok-"+plugin, token)
-				return &Reply{Adjust: a}
+				return &Reply{Adjust: a, SleepMs: slow}
 			case "UpdateContainer", "StopContainer":
 				u := &api.ContainerUpdate{ContainerId: "t-" + plugin + "-" + token}
 				u.SetLinuxMemoryLimit(4096)
-				return &Reply{Updates: []*api.ContainerUpdate{u}}
+				return &Reply{Updates: []*api.ContainerUpdate{u}, SleepMs: slow}
+			}
+			if slow > 0 {
+				return &Reply{SleepMs: slow}
 			}
 			return nil
 		}
